@@ -27,7 +27,7 @@ Inductive okind : Type :=
 | OpPlain
 | OpBnz2B | OpBz2B | OpB2B | OpCallsub2B
 | OpBnzV | OpBzV | OpBV | OpCallsubV
-| OpSwitch | OpMatch | OpRetsub
+| OpSwitch | OpMatch | OpRetsub | OpReturn
 | OpIntcBlock | OpBytecBlock | OpPushInts | OpPushBytess | OpPushInt | OpPushBytes.
 
 (* linearCost: Go ints *)
